@@ -108,7 +108,9 @@ pub fn maybe_add_change_output(
 /// Estimate the feerate for an HTLC transaction
 pub(crate) fn estimate_feerate_per_kw(total_fee: u64, weight: u64) -> u32 {
     // we want the highest feerate that can give rise to this total fee
-    (((total_fee * 1000) + 999) / weight) as u32
+    // saturate rather than truncate: a huge fee must not look like a small feerate
+    let feerate = (total_fee as u128 * 1000 + 999) / weight as u128;
+    core::cmp::min(feerate, u32::MAX as u128) as u32
 }
 
 pub(crate) fn add_holder_sig(
